@@ -147,7 +147,7 @@ func (e *Encoder) writeList(data interface{}) (int, error) {
 		if _, err := e.writeInt(int32(vv.Len())); err != nil {
 			return 0, err
 		}
-	} else if byte(vv.Len()) <= _listFixedTypedLenMax {
+	} else if vv.Len() <= int(_listFixedTypedLenMax) {
 		// fixed-length typed list
 		if _, err := e.writeBT(_listFixedTypedLenTagMin + byte(vv.Len())); err != nil {
 			return 0, err
